@@ -14,20 +14,35 @@ LEMMAS = [
 
 
 def collect(res):
+    from contracts import iterators
+    from . import seq_props
     fams = mixins.families()
     for fam in fams:
         want = set(KEYS) | {(fam.attr("__children_or_empty"), "getter")}
         heap_props.collect(res, [fam], want)
+    # descendants / leaves / size are computed through PreOrderIter: seq world, on top of the iterator contracts
+    reg = seq_props.collect_iter(res)
+    keep = ("preorderiter.py", "abstractiter.py", "spec-functions/", "node/")
+    res.obligations = [o for o in res.obligations if any(k in o.name for k in keep)]
+    res.functions = [f for f in res.functions if any(k in f["function"] for k in keep)]
+    seq_props.collect_specs(res, iterators.build_nav(reg))
 
 
 def run(pid, tier, seed):
-    return common.standard(pid, tier, seed, collect, heap_props.TRUSTED[2:] + [
+    return common.standard(pid, tier, seed, collect_all, heap_props.TRUSTED[2:] + [
         "ghost functions A (ancestor-or-self), d (depth), idx (child index), hgt (height), ANC (ancestor at depth j) exist for "
         "the current forest (definable in every finite forest satisfying WF, which C01 proves invariant)",
         "'correct immediately after any mutation': the functions read only the two link attributes (no cached state); "
         "their value is a function of the current view"],
         "queries.py", {"property": "C04", "nodes": 5}, {"property": "C04", "nodes": 7},
         "all ordered tree shapes up to N nodes, every node, all pairs/triples for commonancestors", lemmas=LEMMAS)
+
+
+def collect_all(res):
+    collect(res)
+    for o in res.obligations:
+        if "iterators/" in o.name or "spec-functions/" in o.name:
+            o.props = set(o.props) | {"C04"}
 
 
 def replay(pid, path):
